@@ -912,3 +912,722 @@ Proof.
   - intros p i Hp. apply node_at_file_In in Hp. specialize (H _ Hp). cbn [snd] in H.
     apply andb_true_iff in H. destruct H as [H _]. apply Nat.ltb_lt; assumption.
 Qed.
+
+(* ================================================================ benign archives *)
+(* a file system is tree shaped: whatever exists sits in a directory *)
+Definition WF (s : state) : Prop := forall c p, node_at s (c :: p) <> None -> node_at s p = Some NDir.
+
+Lemma is_dir_iff s p : is_dir s p = true <-> node_at s p = Some NDir.
+Proof. unfold is_dir. destruct (node_at s p) as [[| | |]|]; split; congruence. Qed.
+
+(* resolving plain components through real directories: the kernel succeeds, at the literal location *)
+Lemma walk_forward s : forall f m seen cs cur,
+  m <> Lenient ->
+  existsb is_dd cs = false -> List.length cs < f ->
+  node_at s cur = Some NDir ->
+  (forall k, 0 < k < List.length cs -> node_at s (rev (firstn k cs) ++ cur) = Some NDir) ->
+  (m = NoFollow \/ (nosym s (rev cs ++ cur) /\ (m = Strict -> node_at s (rev cs ++ cur) <> None))) ->
+  walk m s f seen cur cs = WOk (rev cs ++ cur).
+Proof.
+  induction f as [|f IH]; intros m seen cs cur NL DD LF DC CH LAST; [lia|].
+  destruct cs as [|c rest]; [reflexivity|].
+  rewrite walk_cons. cbn in DD. apply orb_false_iff in DD. destruct DD as [Dc DD]. rewrite Dc.
+  assert (LM : lenient m = false) by (destruct m; cbn; congruence). rewrite LM.
+  rewrite (proj2 (is_dir_iff s cur) DC). cbn [negb andb].
+  cbn [List.length] in LF.
+  assert (STEP : node_at s (c :: cur) = Some NDir -> rest <> [] -> walk m s f seen (c :: cur) rest = WOk (rev (c :: rest) ++ cur)).
+  { intros DC' NE. cbn [rev]. rewrite <- app_assoc. cbn [app]. apply IH; auto; try lia.
+    - intros k Hk. specialize (CH (S k)). cbn [firstn rev] in CH. rewrite <- app_assoc in CH. apply CH. cbn [List.length]. lia.
+    - cbn [rev] in LAST. rewrite <- app_assoc in LAST. exact LAST. }
+  destruct rest as [|c2 rest].
+  - (* last component *)
+    assert (W0 : forall y, walk m s f seen y [] = WOk y) by (intros y; destruct f; [lia | reflexivity]).
+    cbn [rev app] in *.
+    destruct m; try congruence.
+    + destruct LAST as [?|[NS NN]]; [discriminate|]. specialize (NN eq_refl).
+      destruct (node_at s (c :: cur)) as [[| i | t |]|] eqn:N; try apply W0; [exfalso; eapply NS; eauto | congruence].
+    + destruct LAST as [?|[NS _]]; [discriminate|].
+      destruct (node_at s (c :: cur)) as [[| i | t |]|] eqn:N; try apply W0. exfalso; eapply NS; eauto.
+  - assert (D1 : node_at s (c :: cur) = Some NDir).
+    { specialize (CH 1). cbn in CH. apply CH. lia. }
+    assert (G := STEP D1 ltac:(discriminate)).
+    destruct m; try congruence; rewrite D1; exact G.
+Qed.
+
+Lemma walk_forward_lenient s : forall f seen cs cur,
+  existsb is_dd cs = false -> List.length cs < f ->
+  (forall k, 0 < k <= List.length cs -> nosym s (rev (firstn k cs) ++ cur)) ->
+  walk Lenient s f seen cur cs = WOk (rev cs ++ cur).
+Proof.
+  induction f as [|f IH]; intros seen cs cur DD LF CH; [lia|].
+  destruct cs as [|c rest]; [reflexivity|].
+  rewrite walk_cons. cbn in DD. apply orb_false_iff in DD. destruct DD as [Dc DD]. rewrite Dc.
+  cbn [lenient negb andb]. cbn [List.length] in LF.
+  assert (G : walk Lenient s f seen (c :: cur) rest = WOk (rev (c :: rest) ++ cur)).
+  { cbn [rev]. rewrite <- app_assoc. cbn [app]. apply IH; auto; try lia.
+    intros k Hk. specialize (CH (S k)). cbn [firstn rev] in CH. rewrite <- app_assoc in CH. apply CH. cbn [List.length]. lia. }
+  assert (N1 : nosym s (c :: cur)) by (specialize (CH 1); cbn in CH; apply CH; lia).
+  destruct (node_at s (c :: cur)) as [[| i | t |]|] eqn:N; auto. exfalso; eapply N1; eauto.
+Qed.
+
+Definition suffix (suf l : list string) : Prop := exists pre, l = pre ++ suf.
+
+Lemma suffix_refl l : suffix l l.
+Proof. exists []; reflexivity. Qed.
+Lemma suffix_cons c suf l : suffix suf l -> suffix suf (c :: l).
+Proof. intros [pre ->]. exists (c :: pre); reflexivity. Qed.
+Lemma suffix_nil l : suffix [] l.
+Proof. exists l. rewrite app_nil_r; reflexivity. Qed.
+Lemma suffix_cons_inv suf c l : suffix suf (c :: l) -> suf = c :: l \/ suffix suf l.
+Proof.
+  intros [pre E]. destruct pre as [|a pre]; cbn in E; [left; congruence|]. right. exists pre. congruence.
+Qed.
+Lemma suffix_length suf l : suffix suf l -> List.length suf <= List.length l.
+Proof. intros [pre ->]. rewrite app_length; lia. Qed.
+
+(* the position reached after k components of [rev rq] is a suffix of rq *)
+Lemma pos_suffix (rq : list string) k : k <= List.length rq ->
+  rev (firstn k (rev rq)) = skipn (List.length rq - k) rq.
+Proof. intros _. rewrite firstn_rev, rev_involutive. reflexivity. Qed.
+
+Lemma skipn_suffix (n : nat) (rq : list string) : suffix (skipn n rq) rq.
+Proof. exists (firstn n rq). symmetry; apply firstn_skipn. Qed.
+
+Lemma wf_down s pre p : WF s -> node_at s (pre ++ p) <> None -> pre <> [] -> node_at s p = Some NDir.
+Proof.
+  intros W. induction pre as [|a pre IH]; [congruence|]. intros N _. cbn in N.
+  specialize (W a (pre ++ p) N). destruct pre as [|b pre]; [exact W|]. apply IH; [rewrite W; discriminate | discriminate].
+Qed.
+
+Section Benign.
+  Variable R : rpath.
+
+  (* every strict-or-full prefix position of the (reversed) name rq is free or a real directory *)
+  Definition chain_free (s : state) (rq : list string) : Prop :=
+    forall suf, suffix suf rq -> suf <> [] -> node_at s (suf ++ R) = None \/ node_at s (suf ++ R) = Some NDir.
+
+  Lemma chain_free_tl s c rq : chain_free s (c :: rq) -> chain_free s rq.
+  Proof. intros C suf S N. apply C; [apply suffix_cons; exact S | exact N]. Qed.
+
+  (* mkdir -p R/(rev rq) *)
+  Fixpoint mkdirp (s : state) (rq : list string) : state :=
+    match rq with
+    | [] => s
+    | c :: rhead =>
+        let s1 := mkdirp s rhead in
+        match node_at s1 (rq ++ R) with None => set_node s1 (rq ++ R) NDir | Some _ => s1 end
+    end.
+
+  Lemma mkdirp_dirs_added s rq : dirs_added s (mkdirp s rq).
+  Proof.
+    induction rq as [|c rhead IH]; [apply dirs_added_refl|]. cbn [mkdirp].
+    destruct (node_at (mkdirp s rhead) ((c :: rhead) ++ R)) eqn:N; [exact IH|].
+    eapply dirs_added_trans; [exact IH|]. apply dirs_added_set. exact N.
+  Qed.
+
+  Lemma mkdirp_files s rq : files (mkdirp s rq) = files s /\ next (mkdirp s rq) = next s.
+  Proof.
+    induction rq as [|c rhead IH]; [auto|]. cbn [mkdirp].
+    destruct (node_at (mkdirp s rhead) ((c :: rhead) ++ R)); [exact IH|]. cbn. exact IH.
+  Qed.
+
+  Lemma app_neq_length (a b : list string) : List.length a <> List.length b -> a ++ R <> b ++ R.
+  Proof. intros N E. apply app_inv_tail in E. congruence. Qed.
+
+  Lemma mkdirp_other s rq p : (forall suf, suffix suf rq -> suf <> [] -> p <> suf ++ R) -> node_at (mkdirp s rq) p = node_at s p.
+  Proof.
+    induction rq as [|c rhead IH]; intros H; [reflexivity|]. cbn [mkdirp].
+    assert (E : node_at (mkdirp s rhead) p = node_at s p).
+    { apply IH. intros suf S N. apply H; [apply suffix_cons; exact S | exact N]. }
+    destruct (node_at (mkdirp s rhead) ((c :: rhead) ++ R)); [exact E|].
+    rewrite node_at_set_other; [exact E|]. apply H; [apply suffix_refl | discriminate].
+  Qed.
+
+  Lemma mkdirp_dir s rq :
+    node_at s R = Some NDir -> chain_free s rq ->
+    forall suf, suffix suf rq -> node_at (mkdirp s rq) (suf ++ R) = Some NDir.
+  Proof.
+    intros DR. induction rq as [|c rhead IH]; intros C suf S.
+    - destruct S as [pre E]. destruct pre; [|discriminate]. cbn in E. subst suf. exact DR.
+    - cbn [mkdirp]. specialize (IH (chain_free_tl _ _ _ C)).
+      destruct (suffix_cons_inv _ _ _ S) as [->|S'].
+      + destruct (node_at (mkdirp s rhead) ((c :: rhead) ++ R)) as [n|] eqn:N.
+        * rewrite N. destruct (mkdirp_dirs_added s rhead ((c :: rhead) ++ R)) as [E|[_ E]]; [|congruence].
+          rewrite N in E. destruct (C (c :: rhead) (suffix_refl _) ltac:(discriminate)) as [C1|C1]; congruence.
+        * apply node_at_set_same. discriminate.
+      + assert (NE : suf ++ R <> (c :: rhead) ++ R).
+        { apply app_neq_length. apply suffix_length in S'. cbn [List.length]. lia. }
+        destruct (node_at (mkdirp s rhead) ((c :: rhead) ++ R)); [apply IH; exact S'|].
+        rewrite node_at_set_other by exact NE. apply IH; exact S'.
+  Qed.
+
+  Lemma mkdirp_id s rq : (forall suf, suffix suf rq -> suf <> [] -> node_at s (suf ++ R) <> None) -> mkdirp s rq = s.
+  Proof.
+    induction rq as [|c rhead IH]; intros H; [reflexivity|]. cbn [mkdirp].
+    rewrite IH by (intros suf S N; apply H; [apply suffix_cons; exact S | exact N]).
+    destruct (node_at s ((c :: rhead) ++ R)) eqn:N; [reflexivity|].
+    exfalso. apply (H (c :: rhead) (suffix_refl _)); [discriminate | exact N].
+  Qed.
+
+  Lemma mkdirp_WF s rq : WF s -> node_at s R = Some NDir -> chain_free s rq -> WF (mkdirp s rq).
+  Proof.
+    intros W DR. induction rq as [|c rhead IH]; intros C; [exact W|]. cbn [mkdirp].
+    specialize (IH (chain_free_tl _ _ _ C)).
+    destruct (node_at (mkdirp s rhead) ((c :: rhead) ++ R)) eqn:N; [exact IH|].
+    intros a p NN. destruct (eqb_spec (a :: p) ((c :: rhead) ++ R)) as [E|NE].
+    - cbn in E. injection E as -> ->.
+      assert (NP : rhead ++ R <> (c :: rhead) ++ R) by (apply app_neq_length; cbn; lia).
+      rewrite node_at_set_other by exact NP.
+      apply (mkdirp_dir s rhead DR (chain_free_tl _ _ _ C) rhead (suffix_refl _)).
+    - rewrite node_at_set_other in NN by exact NE.
+      destruct (eqb_spec p ((c :: rhead) ++ R)) as [->|NP].
+      + apply node_at_set_same. discriminate.
+      + rewrite node_at_set_other by exact NP. apply (IH a p). exact NN.
+  Qed.
+End Benign.
+
+Lemma walk_strict_last_exists s : forall f seen cs cur x,
+  existsb is_dd cs = false -> cs <> [] ->
+  (forall k, 0 < k <= List.length cs -> nosym s (rev (firstn k cs) ++ cur)) ->
+  walk Strict s f seen cur cs = WOk x -> node_at s x <> None.
+Proof.
+  induction f as [|f IH]; intros seen cs cur x DD NE CH W; [discriminate|].
+  destruct cs as [|c rest]; [congruence|].
+  rewrite walk_cons in W. cbn in DD. apply orb_false_iff in DD. destruct DD as [Dc DD]. rewrite Dc in W.
+  cbn [lenient negb andb] in W. destruct (negb (is_dir s cur)); [discriminate|].
+  assert (N1 : nosym s (c :: cur)) by (specialize (CH 1); cbn in CH; apply CH; cbn; lia).
+  destruct (node_at s (c :: cur)) as [n|] eqn:N; [|destruct rest; discriminate].
+  assert (G : walk Strict s f seen (c :: cur) rest = WOk x -> node_at s x <> None).
+  { intros W'. destruct rest as [|c2 rest].
+    - destruct f; [discriminate|]. cbn in W'. injection W' as <-. rewrite N. discriminate.
+    - eapply IH; [exact DD | discriminate | | exact W'].
+      intros k Hk. specialize (CH (S k)). cbn [firstn rev] in CH. rewrite <- app_assoc in CH. apply CH. cbn [List.length] in *. lia. }
+  destruct n as [| i | t |]; auto. exfalso; eapply N1; eauto.
+Qed.
+
+Section Benign2.
+  Variable R : rpath.
+
+  Lemma pos_eq (rq : list string) k : rev (firstn k (rev rq)) ++ R = skipn (List.length rq - k) rq ++ R.
+  Proof. rewrite firstn_rev, rev_involutive. reflexivity. Qed.
+
+  (* all proper prefixes of the name are real directories *)
+  Definition below_dirs (s : state) (rq : list string) : Prop :=
+    forall suf, suffix suf rq -> suf <> rq -> node_at s (suf ++ R) = Some NDir.
+
+  Lemma skipn_proper (rq : list string) n : 0 < n -> n <= List.length rq -> skipn n rq <> rq.
+  Proof.
+    intros Hn Hl E. apply (f_equal (@List.length _)) in E. rewrite skipn_length in E. lia.
+  Qed.
+
+  Lemma walk_fw s m rq :
+    m <> Lenient -> existsb is_dd (rev rq) = false -> List.length rq < FUEL ->
+    node_at s R = Some NDir -> below_dirs s rq ->
+    (m = NoFollow \/ (nosym s (rq ++ R) /\ (m = Strict -> node_at s (rq ++ R) <> None))) ->
+    walk m s FUEL [] R (rev rq) = WOk (rq ++ R).
+  Proof.
+    intros NL DD LF DR BD LAST.
+    rewrite <- (rev_involutive rq) at 2.
+    apply walk_forward; auto.
+    - rewrite rev_length; exact LF.
+    - intros k Hk. rewrite rev_length in Hk. rewrite pos_eq. apply BD; [apply skipn_suffix|].
+      apply skipn_proper; lia.
+    - rewrite rev_involutive. exact LAST.
+  Qed.
+
+  Lemma dir_nosym s p : node_at s p = Some NDir -> nosym s p.
+  Proof. intros E t. rewrite E. discriminate. Qed.
+  Lemma none_nosym s p : node_at s p = None -> nosym s p.
+  Proof. intros E t. rewrite E. discriminate. Qed.
+
+  Lemma chain_free_nosym s rq suf : chain_free R s rq -> suffix suf rq -> suf <> [] -> nosym s (suf ++ R).
+  Proof. intros C S N. destruct (C suf S N); [apply none_nosym | apply dir_nosym]; assumption. Qed.
+
+  Lemma k_exists_missing s rq :
+    existsb is_dd (rev rq) = false -> chain_free R s rq -> rq <> [] -> node_at s (rq ++ R) = None ->
+    k_exists s R (rev rq) = false.
+  Proof.
+    intros DD C NE N. unfold k_exists. destruct (walk Strict s FUEL [] R (rev rq)) as [x| | |] eqn:W; auto.
+    exfalso.
+    assert (CH : forall k, 0 < k <= List.length (rev rq) -> nosym s (rev (firstn k (rev rq)) ++ R)).
+    { intros k Hk. rewrite rev_length in Hk. rewrite pos_eq. eapply chain_free_nosym; [exact C | apply skipn_suffix|].
+      intros E. apply (f_equal (@List.length _)) in E. rewrite skipn_length in E. cbn in E. lia. }
+    assert (X : x = rev (rev rq) ++ R) by (eapply walk_chain; [exact DD | | exact W]; intros; apply CH; assumption).
+    rewrite rev_involutive in X. subst x.
+    eapply walk_strict_last_exists; [exact DD | | exact CH | exact W | exact N].
+    intros E. apply (f_equal (@rev _)) in E. rewrite rev_involutive in E. cbn in E. congruence.
+  Qed.
+
+  Lemma chain_free_below s rq : WF s -> chain_free R s rq -> node_at s R = Some NDir ->
+    node_at s (rq ++ R) <> None -> forall suf, suffix suf rq -> node_at s (suf ++ R) = Some NDir.
+  Proof.
+    intros W C DR N suf [pre E]. subst rq. destruct pre as [|a pre].
+    - cbn in N. destruct suf as [|b suf]; [exact DR|].
+      destruct (C (b :: suf) (suffix_refl _) ltac:(discriminate)); [congruence | assumption].
+    - eapply (wf_down s (a :: pre)); [exact W | rewrite <- app_assoc in N; exact N | discriminate].
+  Qed.
+
+  Lemma makedirs_forward s : forall rq,
+    WF s -> node_at s R = Some NDir -> chain_free R s rq ->
+    existsb is_dd (rev rq) = false -> List.length rq < FUEL ->
+    rq <> [] -> node_at s (rq ++ R) = None ->
+    makedirs false s R rq = (mkdirp R s rq, MDone).
+  Proof.
+    intros rq W DR. induction rq as [|c rhead IH]; intros C DD LF NE N; [congruence|].
+    cbn [makedirs].
+    assert (DD' : existsb is_dd (rev rhead) = false).
+    { cbn [rev] in DD. rewrite existsb_app in DD. apply orb_false_iff in DD. tauto. }
+    assert (C' := chain_free_tl R s c rhead C).
+    cbn [List.length] in LF.
+    assert (PRE : (if k_exists s R (rev rhead) then (s, MDone)
+                   else match makedirs false s R rhead with (s1, MFail) => (s1, MFail) | (s1, _) => (s1, MDone) end)
+                  = (mkdirp R s rhead, MDone)).
+    { destruct (node_at s (rhead ++ R)) as [n|] eqn:NH.
+      - assert (ALL : forall suf, suffix suf rhead -> node_at s (suf ++ R) = Some NDir).
+        { apply chain_free_below; auto. rewrite NH; discriminate. }
+        assert (EX : k_exists s R (rev rhead) = true).
+        { unfold k_exists. rewrite (walk_fw s Strict rhead); auto; try discriminate; try lia.
+          - intros suf S _. apply ALL; exact S.
+          - right. split; [apply dir_nosym; apply ALL; apply suffix_refl | intros _; rewrite NH; discriminate]. }
+        rewrite EX. rewrite mkdirp_id; [reflexivity|]. intros suf S _. rewrite ALL by exact S. discriminate.
+      - destruct rhead as [|c2 rhead2]; [cbn in NH; congruence|].
+        rewrite k_exists_missing; auto; try discriminate.
+        rewrite IH; auto; try discriminate; lia. }
+    rewrite PRE. unfold k_mkdir, k_create.
+    assert (D1 : forall suf, suffix suf rhead -> node_at (mkdirp R s rhead) (suf ++ R) = Some NDir)
+      by (apply mkdirp_dir; assumption).
+    rewrite (walk_fw (mkdirp R s rhead) NoFollow (c :: rhead)); auto; try discriminate.
+    - cbn [mkdirp]. assert (N1 : node_at (mkdirp R s rhead) ((c :: rhead) ++ R) = None).
+      { rewrite mkdirp_other; [exact N|]. intros suf S _. apply app_neq_length. apply suffix_length in S. cbn; lia. }
+      rewrite N1. reflexivity.
+    - apply (D1 [] (suffix_nil _)).
+    - intros suf S NEQ. destruct (suffix_cons_inv _ _ _ S) as [->|S']; [congruence | apply D1; exact S'].
+  Qed.
+End Benign2.
+
+Lemma no_sym_prefix_true s : forall cs cur,
+  (forall k, 0 < k < List.length cs -> nosym s (rev (firstn k cs) ++ cur)) -> no_sym_prefix s cur cs = true.
+Proof.
+  induction cs as [|c cs IH]; intros cur H; [reflexivity|].
+  destruct cs as [|c2 rest]; [reflexivity|]. cbn [no_sym_prefix].
+  assert (N1 : nosym s (c :: cur)) by (specialize (H 1); cbn in H; apply H; cbn; lia).
+  assert (G : no_sym_prefix s (c :: cur) (c2 :: rest) = true).
+  { apply IH. intros k Hk. specialize (H (S k)). cbn [firstn rev] in H. rewrite <- app_assoc in H. apply H. cbn [List.length] in *. lia. }
+  destruct (node_at s (c :: cur)) as [[| i | t |]|] eqn:N; auto. exfalso; eapply N1; eauto.
+Qed.
+
+Section Benign3.
+  Variable all : list member.
+  Variable R : rpath.
+
+  Lemma upper_dirs s rhead :
+    WF s -> node_at s R = Some NDir -> chain_free R s rhead ->
+    existsb is_dd (rev rhead) = false -> List.length rhead < FUEL ->
+    (if k_exists s R (rev rhead) then (s, MDone) else makedirs false s R rhead) = (mkdirp R s rhead, MDone).
+  Proof.
+    intros W DR C DD LF. destruct (node_at s (rhead ++ R)) as [n|] eqn:NH.
+    - assert (ALL : forall suf, suffix suf rhead -> node_at s (suf ++ R) = Some NDir).
+      { apply chain_free_below; auto. rewrite NH; discriminate. }
+      assert (EX : k_exists s R (rev rhead) = true).
+      { unfold k_exists. rewrite (walk_fw R s Strict rhead); auto; try discriminate.
+        - intros suf S _. apply ALL; exact S.
+        - right. split; [apply dir_nosym; apply ALL; apply suffix_refl | intros _; rewrite NH; discriminate]. }
+      rewrite EX. rewrite mkdirp_id; [reflexivity|]. intros suf S _. rewrite ALL by exact S. discriminate.
+    - destruct rhead as [|c2 rhead2]; [cbn in NH; congruence|].
+      rewrite k_exists_missing; auto; try discriminate.
+      apply makedirs_forward; auto; discriminate.
+  Qed.
+
+  (* the facts that make a member benign for a given state; rq = the reversed components of its name *)
+  Definition plain (cs : list string) : Prop := existsb is_dd cs = false /\ List.length cs < FUEL.
+
+  Lemma rev_removelast (rq : list string) c : removelast (rev (c :: rq)) = rev rq.
+  Proof. cbn [rev]. apply removelast_last. Qed.
+
+  Lemma chain_positions_nosym s rq :
+    chain_free R s rq -> forall k, 0 < k <= List.length rq -> nosym s (rev (firstn k (rev rq)) ++ R).
+  Proof.
+    intros C k Hk. rewrite pos_eq. eapply chain_free_nosym; [exact C | apply skipn_suffix|].
+    intros E. apply (f_equal (@List.length _)) in E. rewrite skipn_length in E. cbn in E. lia.
+  Qed.
+
+  Lemma check_benign s m rq :
+    comps (m_name m) = rev rq -> plain (rev rq) ->
+    (match m with MReg _ _ | MDir _ => True | _ => False end) ->
+    (forall k, 0 < k <= List.length rq -> nosym s (rev (firstn k (rev rq)) ++ R)) ->
+    check Repaired s R m = FAcc.
+  Proof.
+    intros E [DD LF] K NS. unfold check. rewrite E, DD.
+    rewrite no_sym_prefix_true by (intros k Hk; apply NS; rewrite rev_length in Hk; lia). cbn [negb].
+    unfold data_filter. rewrite E. unfold realpath.
+    rewrite walk_forward_lenient; [| exact DD | exact LF | intros k Hk; apply NS; rewrite rev_length in Hk; lia].
+    rewrite under_underb by apply under_app. cbn [negb]. destruct m; try contradiction; reflexivity.
+  Qed.
+
+  Lemma step_reg s n d i c rhead :
+    comps n = rev (c :: rhead) -> plain (rev (c :: rhead)) ->
+    WF s -> node_at s R = Some NDir -> chain_free R s rhead -> node_at s ((c :: rhead) ++ R) = None ->
+    step Repaired all R s (MReg n d) i = (OOk, new_file (mkdirp R s rhead) ((c :: rhead) ++ R) d).
+  Proof.
+    intros E PL W DR C N. destruct PL as [DD LF].
+    assert (DD' : existsb is_dd (rev rhead) = false).
+    { cbn [rev] in DD. rewrite existsb_app in DD. apply orb_false_iff in DD. tauto. }
+    assert (LF' : List.length rhead < FUEL) by (rewrite rev_length in LF; cbn in LF; lia).
+    unfold step. rewrite (check_benign s (MReg n d) (c :: rhead)); auto; try (split; assumption).
+    2: { intros k Hk. destruct (Nat.eq_dec k (List.length (c :: rhead))) as [->|NEk].
+         - rewrite <- rev_length, firstn_all, rev_involutive. apply none_nosym. exact N.
+         - rewrite pos_eq. cbn [List.length] in *.
+           replace (S (List.length rhead) - k) with (S (List.length rhead - k)) by lia. cbn [skipn].
+           eapply chain_free_nosym; [exact C | apply skipn_suffix|].
+           intros E'. apply (f_equal (@List.length _)) in E'. rewrite skipn_length in E'. cbn in E'. lia. }
+    cbn [is_link m_name with_name]. unfold EFUEL. cbn [extract_at]. rewrite E, rev_removelast.
+    rewrite rev_involutive, (upper_dirs s rhead W DR C DD' LF').
+    unfold k_open_write.
+    assert (D1 : forall suf, suffix suf rhead -> node_at (mkdirp R s rhead) (suf ++ R) = Some NDir)
+      by (apply mkdirp_dir; assumption).
+    assert (N1 : node_at (mkdirp R s rhead) ((c :: rhead) ++ R) = None).
+    { rewrite mkdirp_other; [exact N|]. intros suf S _. apply app_neq_length. apply suffix_length in S. cbn; lia. }
+    rewrite (walk_fw R (mkdirp R s rhead) Create (c :: rhead)); auto; try discriminate.
+    - rewrite N1. reflexivity.
+    - rewrite rev_length in LF. exact LF.
+    - apply (D1 [] (suffix_nil _)).
+    - intros suf S NEQ. destruct (suffix_cons_inv _ _ _ S) as [->|S']; [congruence | apply D1; exact S'].
+    - right. split; [apply none_nosym; exact N1 | discriminate].
+  Qed.
+
+  Lemma step_dir s n i rq :
+    comps n = rev rq -> plain (rev rq) ->
+    WF s -> node_at s R = Some NDir -> chain_free R s rq ->
+    step Repaired all R s (MDir n) i = (OOk, mkdirp R s rq).
+  Proof.
+    intros E PL W DR C. destruct PL as [DD LF]. rewrite rev_length in LF.
+    unfold step. rewrite (check_benign s (MDir n) rq); auto.
+    2: { split; [exact DD | rewrite rev_length; exact LF]. }
+    2: { apply chain_positions_nosym; exact C. }
+    cbn [is_link m_name with_name]. unfold EFUEL. cbn [extract_at]. rewrite E.
+    destruct rq as [|c rhead].
+    - cbn [rev removelast]. unfold k_exists, k_mkdir, k_create.
+      assert (W0 : forall m, walk m s FUEL [] R [] = WOk R).
+      { intros m. destruct FUEL eqn:F; [lia | reflexivity]. }
+      rewrite !W0, DR. reflexivity.
+    - assert (DD' : existsb is_dd (rev rhead) = false).
+      { cbn [rev] in DD. rewrite existsb_app in DD. apply orb_false_iff in DD. tauto. }
+      cbn [List.length] in LF.
+      rewrite rev_removelast, rev_involutive, (upper_dirs s rhead W DR (chain_free_tl R s c rhead C) DD' ltac:(lia)).
+      unfold k_mkdir, k_create.
+      assert (D1 : forall suf, suffix suf rhead -> node_at (mkdirp R s rhead) (suf ++ R) = Some NDir)
+        by (apply mkdirp_dir; [assumption | eapply chain_free_tl; eauto]).
+      rewrite (walk_fw R (mkdirp R s rhead) NoFollow (c :: rhead)); auto; try discriminate.
+      + cbn [mkdirp]. destruct (node_at (mkdirp R s rhead) ((c :: rhead) ++ R)); reflexivity.
+      + apply (D1 [] (suffix_nil _)).
+      + intros suf S NEQ. destruct (suffix_cons_inv _ _ _ S) as [->|S']; [congruence | apply D1; exact S'].
+  Qed.
+End Benign3.
+
+Section Benign4.
+  Variable R : rpath.
+
+  Definition rq_of (m : member) : list string := rev (comps (m_name m)).
+  Definition is_reg (m : member) : Prop := match m with MReg _ _ => True | _ => False end.
+
+  (* the member fits the state: what lies on its way is free or a real directory, and (for a regular
+     member) nothing exists yet under its name *)
+  Definition fits (s : state) (m : member) : Prop :=
+    match m with
+    | MDir _ => chain_free R s (rq_of m)
+    | MReg _ _ => rq_of m <> [] /\ chain_free R s (tl (rq_of m)) /\ node_at s (rq_of m ++ R) = None
+    | _ => False
+    end.
+
+  (* no regular member's name is a prefix of (or equal to) the name of another member *)
+  Fixpoint consistent (ms : list member) : Prop :=
+    match ms with
+    | [] => True
+    | m :: ms' =>
+        (forall m2, In m2 ms' ->
+           (is_reg m -> ~ suffix (rq_of m) (rq_of m2)) /\ (is_reg m2 -> ~ suffix (rq_of m2) (rq_of m)))
+        /\ consistent ms'
+    end.
+
+  Definition has_file (s : state) (p : rpath) (d : string) : Prop :=
+    exists i, node_at s p = Some (NFile i) /\ lookup i (files s) = Some {| f_data := d; f_orw := true |}.
+
+  Definition off_path (p : rpath) (m : member) : Prop :=
+    forall suf, suffix suf (rq_of m) -> suf <> [] -> p <> suf ++ R.
+
+  Lemma new_file_WF s c p d :
+    WF s -> node_at s p = Some NDir -> node_at s (c :: p) = None -> WF (new_file s (c :: p) d).
+  Proof.
+    intros W DP FR a q NN. destruct (eqb_spec (a :: q) (c :: p)) as [E|NE].
+    - injection E as -> ->. destruct (eqb_spec p (c :: p)) as [E2|NE2].
+      + exfalso. apply (f_equal (@List.length _)) in E2. cbn in E2. lia.
+      + rewrite node_at_new_other by exact NE2. exact DP.
+    - rewrite node_at_new_other in NN by exact NE.
+      destruct (eqb_spec q (c :: p)) as [->|NQ].
+      + exfalso. specialize (W a (c :: p) NN). congruence.
+      + rewrite node_at_new_other by exact NQ. apply (W a q). exact NN.
+  Qed.
+
+  Lemma InoOk_dirs_added s s1 : dirs_added s s1 -> next s1 = next s -> InoOk s -> InoOk s1.
+  Proof.
+    intros D E I p i H. rewrite E. destruct (D p) as [E1|[_ E1]]; [|congruence]. apply (I p). congruence.
+  Qed.
+
+  Lemma InoOk_new_file s p d : p <> [] -> InoOk s -> InoOk (new_file s p d).
+  Proof.
+    intros NE I q i H. cbn [next new_file]. destruct (eqb_spec q p) as [->|N].
+    - rewrite node_at_new_same in H by exact NE. injection H as <-. lia.
+    - rewrite node_at_new_other in H by exact N. apply I in H. lia.
+  Qed.
+
+  Lemma has_file_new s p d : p <> [] -> has_file (new_file s p d) p d.
+  Proof.
+    intros NE. exists (next s). split; [apply node_at_new_same; exact NE|]. cbn [files new_file]. apply lookup_insert_eq.
+  Qed.
+
+  Lemma has_file_keep_new s p d q e : InoOk s -> q <> p -> has_file s q e -> has_file (new_file s p d) q e.
+  Proof.
+    intros I N [i [H1 H2]]. exists i. split; [rewrite node_at_new_other by exact N; exact H1|].
+    cbn [files new_file]. rewrite lookup_insert_neq; [exact H2|]. apply I in H1. lia.
+  Qed.
+
+  Lemma has_file_keep_mkdirp s rq q e :
+    (forall suf, suffix suf rq -> suf <> [] -> q <> suf ++ R) -> has_file s q e -> has_file (mkdirp R s rq) q e.
+  Proof.
+    intros OFF [i [H1 H2]]. exists i. split; [rewrite mkdirp_other by exact OFF; exact H1|].
+    rewrite (proj1 (mkdirp_files R s rq)). exact H2.
+  Qed.
+
+  Lemma chain_free_mkdirp s rq rq2 : chain_free R s rq2 -> chain_free R (mkdirp R s rq) rq2.
+  Proof.
+    intros C suf S N. destruct (mkdirp_dirs_added R s rq (suf ++ R)) as [E|[_ E]]; [rewrite E; apply C; assumption | right; exact E].
+  Qed.
+
+  Lemma suffix_app_eq (a b : list string) : a ++ R = b ++ R -> a = b.
+  Proof. apply app_inv_tail. Qed.
+
+  Lemma suffix_trans (a b c : list string) : suffix a b -> suffix b c -> suffix a c.
+  Proof. intros [p ->] [q ->]. exists (q ++ p). rewrite app_assoc. reflexivity. Qed.
+
+  Lemma suffix_tl (l : list string) : suffix (tl l) l.
+  Proof. destruct l as [|a l]; [apply suffix_refl | exists [a]; reflexivity]. Qed.
+
+  (* one benign member: the state it leaves, and what it preserves *)
+  Lemma benign_step all s m i :
+    WF s -> node_at s R = Some NDir -> InoOk s ->
+    plain (comps (m_name m)) -> fits s m ->
+    exists s1,
+      step Repaired all R s m i = (OOk, s1) /\ WF s1 /\ node_at s1 R = Some NDir /\ InoOk s1 /\
+      (forall n d, m = MReg n d -> has_file s1 (rq_of m ++ R) d) /\
+      (forall q e, off_path q m -> has_file s q e -> has_file s1 q e) /\
+      (forall m2, (is_reg m -> ~ suffix (rq_of m) (rq_of m2)) -> (is_reg m2 -> ~ suffix (rq_of m2) (rq_of m)) ->
+                  fits s m2 -> fits s1 m2).
+  Proof.
+    intros W DR IO PL F. unfold off_path. destruct m as [n d | n | n t | n t | n]; try contradiction.
+    - (* regular *)
+      cbn [fits] in F. destruct F as [NE [C N]]. cbn [m_name] in PL.
+      remember (rq_of (MReg n d)) as rq eqn:RQ. destruct rq as [|c rhead]; [congruence|]. cbn [tl] in C.
+      assert (E' : comps n = rev (c :: rhead)) by (rewrite RQ; unfold rq_of; cbn [m_name]; rewrite rev_involutive; reflexivity).
+      rewrite E' in PL.
+      exists (new_file (mkdirp R s rhead) ((c :: rhead) ++ R) d).
+      assert (D1 : forall suf, suffix suf rhead -> node_at (mkdirp R s rhead) (suf ++ R) = Some NDir)
+        by (apply mkdirp_dir; assumption).
+      assert (OFFL : forall suf, suffix suf rhead -> suf <> [] -> (c :: rhead) ++ R <> suf ++ R).
+      { intros suf S _. apply app_neq_length. apply suffix_length in S. cbn; lia. }
+      assert (N1 : node_at (mkdirp R s rhead) ((c :: rhead) ++ R) = None) by (rewrite mkdirp_other; assumption).
+      assert (I1 : InoOk (mkdirp R s rhead)).
+      { eapply InoOk_dirs_added; [apply mkdirp_dirs_added | apply mkdirp_files | exact IO]. }
+      split; [apply step_reg; assumption|]. split; [|split; [|split; [|split; [|split]]]].
+      + cbn [app]. apply new_file_WF; [apply mkdirp_WF; assumption | apply (D1 rhead (suffix_refl _)) | exact N1].
+      + rewrite node_at_new_other; [apply (D1 [] (suffix_nil _))|].
+        intros E2. apply (f_equal (@List.length _)) in E2. rewrite app_length in E2. cbn in E2. lia.
+      + apply InoOk_new_file; [discriminate | exact I1].
+      + intros n0 d0 [= <- <-]. apply has_file_new. discriminate.
+      + intros q e OFF HF. apply has_file_keep_new; [exact I1 | |].
+        * apply (OFF (c :: rhead) (suffix_refl _)). discriminate.
+        * apply has_file_keep_mkdirp; [|exact HF]. intros suf S NN. apply OFF; [apply suffix_cons; exact S | exact NN].
+      + intros m2 K1 K2 F2. specialize (K1 I).
+        assert (CF : forall rq2, suffix rq2 (rq_of m2) -> chain_free R s rq2 ->
+                     chain_free R (new_file (mkdirp R s rhead) ((c :: rhead) ++ R) d) rq2).
+        { intros rq2 S2 C2 suf S NN.
+          assert (NEQ : suf ++ R <> (c :: rhead) ++ R).
+          { intros E2. apply suffix_app_eq in E2. subst suf. apply K1. eapply suffix_trans; eauto. }
+          rewrite node_at_new_other by exact NEQ. exact (chain_free_mkdirp s rhead rq2 C2 suf S NN). }
+        destruct m2 as [n2 d2 | n2 | n2 t2 | n2 t2 | n2]; try contradiction; cbn [fits] in *.
+        * destruct F2 as [NE2 [C2 N2]]. split; [exact NE2|]. split; [apply CF; [apply suffix_tl | exact C2]|].
+          specialize (K2 I).
+          rewrite node_at_new_other by (intros E2; apply suffix_app_eq in E2; apply K1; rewrite E2; apply suffix_refl).
+          rewrite mkdirp_other; [exact N2|]. intros suf S NN E2. apply suffix_app_eq in E2.
+          apply K2. rewrite E2. apply suffix_cons. exact S.
+        * apply CF; [apply suffix_refl | exact F2].
+    - (* directory *)
+      cbn [fits] in F. cbn [m_name] in PL.
+      remember (rq_of (MDir n)) as rq eqn:RQ.
+      assert (E' : comps n = rev rq) by (rewrite RQ; unfold rq_of; cbn [m_name]; rewrite rev_involutive; reflexivity).
+      rewrite E' in PL.
+      exists (mkdirp R s rq).
+      split; [apply step_dir; assumption|]. split; [|split; [|split; [|split; [|split]]]].
+      + apply mkdirp_WF; assumption.
+      + apply (mkdirp_dir R s _ DR F [] (suffix_nil _)).
+      + eapply InoOk_dirs_added; [apply mkdirp_dirs_added | apply mkdirp_files | exact IO].
+      + intros n0 d0 E0; discriminate.
+      + intros q e OFF HF. apply has_file_keep_mkdirp; [exact OFF | exact HF].
+      + intros m2 _ K2 F2.
+        destruct m2 as [n2 d2 | n2 | n2 t2 | n2 t2 | n2]; try contradiction; cbn [fits] in *.
+        * destruct F2 as [NE2 [C2 N2]]. split; [exact NE2|]. split; [apply chain_free_mkdirp; exact C2|].
+          specialize (K2 I). rewrite mkdirp_other; [exact N2|]. intros suf S NN E2. apply suffix_app_eq in E2.
+          apply K2. rewrite E2. exact S.
+        * apply chain_free_mkdirp; exact F2.
+  Qed.
+
+  Lemma benign_run all : forall ms s i (D : list (rpath * string)),
+    WF s -> node_at s R = Some NDir -> InoOk s ->
+    (forall m, In m ms -> plain (comps (m_name m)) /\ fits s m) ->
+    consistent ms ->
+    (forall q e, In (q, e) D -> has_file s q e /\ forall m, In m ms -> off_path q m) ->
+    exists s', untar_from Repaired all R s ms i = (OOk, s') /\
+      (forall q e, In (q, e) D -> has_file s' q e) /\
+      (forall n d, In (MReg n d) ms -> has_file s' (rev (comps n) ++ R) d).
+  Proof.
+    induction ms as [|m ms IH]; intros s i D W DR IO HM CO HD.
+    - exists s. split; [reflexivity|]. split; [intros q e H; apply HD; exact H | intros n d []].
+    - destruct (HM m (or_introl eq_refl)) as [PL F]. destruct CO as [CP CO].
+      destruct (benign_step all s m i W DR IO PL F) as [s1 [ST [W1 [DR1 [IO1 [NEW [KEEP FITS]]]]]]].
+      set (D1 := match m with MReg n d => [(rq_of m ++ R, d)] | _ => [] end ++ D).
+      destruct (IH s1 (S i) D1 W1 DR1 IO1) as [s' [RUN [HD' HR']]].
+      + intros m2 I2. destruct (HM m2 (or_intror I2)) as [PL2 F2]. split; [exact PL2|].
+        destruct (CP m2 I2) as [K1 K2]. apply FITS; assumption.
+      + exact CO.
+      + intros q e I1. unfold D1 in I1. apply in_app_or in I1. destruct I1 as [I1|I1].
+        * destruct m as [n d | n | n t | n t | n]; try contradiction. destruct I1 as [[= <- <-]|[]].
+          split; [apply (NEW n d eq_refl)|].
+          intros m2 I2 suf S NN E. apply suffix_app_eq in E. destruct (CP m2 I2) as [K1 _].
+          apply (K1 Logic.I). rewrite E. exact S.
+        * destruct (HD q e I1) as [HF OFF]. split; [apply KEEP; [apply OFF; left; reflexivity | exact HF]|].
+          intros m2 I2. apply OFF. right. exact I2.
+      + exists s'. split; [cbn [untar_from]; rewrite ST; exact RUN|]. split.
+        * intros q e I1. apply HD'. unfold D1. apply in_or_app. right. exact I1.
+        * intros n d [->|I1]; [|apply HR'; exact I1].
+          apply HD'. unfold D1. apply in_or_app. left. left. unfold rq_of. reflexivity.
+  Qed.
+
+  (* C18, second clause: a benign archive is extracted completely; every regular member ends up under its
+     name with its content, owner-readable and -writable *)
+  Theorem benign_extracted ms s :
+    WF s -> node_at s R = Some NDir -> InoOk s ->
+    (forall m, In m ms -> plain (comps (m_name m)) /\ fits s m) ->
+    consistent ms ->
+    exists s', untar R ms s = (OOk, s') /\
+      forall n d, In (MReg n d) ms -> has_file s' (rev (comps n) ++ R) d.
+  Proof.
+    intros W DR IO HM CO.
+    destruct (benign_run ms ms s 0 [] W DR IO HM CO) as [s' [RUN [_ HR]]]; [intros q e []|].
+    exists s'. split; [exact RUN | exact HR].
+  Qed.
+End Benign4.
+
+(* ================================================================ deciders, to exhibit concrete instances of the hypotheses *)
+Fixpoint tails (l : list string) : list (list string) :=
+  match l with [] => [[]] | _ :: l' => l :: tails l' end.
+
+Lemma suffix_tails suf l : suffix suf l -> In suf (tails l).
+Proof.
+  induction l as [|a l IH]; intros S.
+  - destruct S as [pre E]. destruct pre; [|discriminate]. cbn in E. subst. left; reflexivity.
+  - destruct (suffix_cons_inv _ _ _ S) as [->|S']; [left; reflexivity | right; apply IH; exact S'].
+Qed.
+
+Lemma tails_suffix suf l : In suf (tails l) -> suffix suf l.
+Proof.
+  induction l as [|a l IH]; cbn; intros [<-|I]; try contradiction; try apply suffix_refl.
+  apply suffix_cons. apply IH. exact I.
+Qed.
+
+Definition wfb (s : state) : bool :=
+  forallb (fun e => match fst e with [] => true | _ :: p => is_dir s p end) (nodes s).
+
+Lemma lookup_In_any {K V} `{EqDec K} (k : K) (m : al K V) : lookup k m <> None -> exists v, In (k, v) m.
+Proof.
+  intros N. destruct (lookup k m) as [v|] eqn:E; [|congruence]. exists v. apply lookup_Some_In; exact E.
+Qed.
+
+Lemma wfb_WF s : wfb s = true -> WF s.
+Proof.
+  unfold wfb. rewrite forallb_forall. intros H c p N. cbn in N. destruct (lookup_In_any _ _ N) as [v I].
+  specialize (H _ I). cbn in H. apply is_dir_iff. exact H.
+Qed.
+
+Definition inookb (s : state) : bool :=
+  forallb (fun e => match snd e with NFile i => (i <? next s)%nat | _ => true end) (nodes s).
+
+Lemma inookb_InoOk s : inookb s = true -> InoOk s.
+Proof.
+  unfold inookb. rewrite forallb_forall. intros H p i N. apply node_at_file_In in N.
+  specialize (H _ N). cbn in H. apply Nat.ltb_lt. exact H.
+Qed.
+
+Definition free_or_dirb (s : state) (p : rpath) : bool :=
+  match node_at s p with None | Some NDir => true | _ => false end.
+
+Definition chain_freeb (R : rpath) (s : state) (rq : list string) : bool :=
+  forallb (fun suf => match suf with [] => true | _ => free_or_dirb s (suf ++ R) end) (tails rq).
+
+Lemma chain_freeb_ok R s rq : chain_freeb R s rq = true -> chain_free R s rq.
+Proof.
+  unfold chain_freeb. rewrite forallb_forall. intros H suf S N. specialize (H suf (suffix_tails _ _ S)).
+  destruct suf; [congruence|]. unfold free_or_dirb in H.
+  destruct (node_at s ((s0 :: suf) ++ R)) as [[| | |]|]; auto; discriminate.
+Qed.
+
+Definition plainb (cs : list string) : bool := negb (existsb is_dd cs) && (List.length cs <? FUEL)%nat.
+Lemma plainb_ok cs : plainb cs = true -> plain cs.
+Proof.
+  unfold plainb, plain. rewrite andb_true_iff, negb_true_iff, Nat.ltb_lt. tauto.
+Qed.
+
+Definition fitsb (R : rpath) (s : state) (m : member) : bool :=
+  match m with
+  | MDir _ => chain_freeb R s (rq_of m)
+  | MReg _ _ => match rq_of m with
+                | [] => false
+                | _ :: t => chain_freeb R s t && match node_at s (rq_of m ++ R) with None => true | _ => false end
+                end
+  | _ => false
+  end.
+
+Lemma fitsb_ok R s m : fitsb R s m = true -> fits R s m.
+Proof.
+  destruct m; cbn [fitsb fits]; try discriminate.
+  - destruct (rq_of (MReg name data)) as [|c t] eqn:E; [discriminate|]. rewrite andb_true_iff. intros [C N].
+    split; [discriminate|]. split; [apply chain_freeb_ok; exact C|].
+    destruct (node_at s ((c :: t) ++ R)); [discriminate | reflexivity].
+  - apply chain_freeb_ok.
+Qed.
+
+Definition suffixb (a b : list string) : bool := existsb (eqb a) (tails b).
+Lemma suffixb_false a b : suffixb a b = false -> ~ suffix a b.
+Proof.
+  unfold suffixb. intros H S. apply suffix_tails in S.
+  assert (existsb (eqb a) (tails b) = true) by (apply existsb_exists; exists a; split; [exact S | apply eqb_refl]).
+  congruence.
+Qed.
+
+Definition is_regb (m : member) : bool := match m with MReg _ _ => true | _ => false end.
+
+Fixpoint consistentb (ms : list member) : bool :=
+  match ms with
+  | [] => true
+  | m :: ms' =>
+      forallb (fun m2 => (negb (is_regb m) || negb (suffixb (rq_of m) (rq_of m2)))
+                         && (negb (is_regb m2) || negb (suffixb (rq_of m2) (rq_of m)))) ms'
+      && consistentb ms'
+  end.
+
+Lemma consistentb_ok ms : consistentb ms = true -> consistent ms.
+Proof.
+  induction ms as [|m ms IH]; [constructor|]. cbn [consistentb consistent]. rewrite andb_true_iff. intros [A B].
+  split; [|apply IH; exact B]. rewrite forallb_forall in A. intros m2 I2. specialize (A m2 I2).
+  rewrite andb_true_iff, !orb_true_iff, !negb_true_iff in A. destruct A as [A1 A2]. split.
+  - intros RG. destruct A1 as [A1|A1]; [destruct m; cbn in *; try contradiction; discriminate | apply suffixb_false; exact A1].
+  - intros RG. destruct A2 as [A2|A2]; [destruct m2; cbn in *; try contradiction; discriminate | apply suffixb_false; exact A2].
+Qed.
